@@ -567,7 +567,7 @@ func replace(root *Value, p Path, nv *Value) *Value {
 }
 
 // Faults: the schema faults applied at a path.
-var Faults = []string{"null", "string", "number", "bool", "array", "object", "empty", "absent", "duplicate", "oversized", "negative", "nested-self", "prefix-half", "prefix-one", "suffix-cut", "null-run-head", "null-run-inside", "all-null"}
+var Faults = []string{"null", "string", "number", "bool", "array", "object", "empty", "absent", "duplicate", "oversized", "negative", "nested-self", "prefix-half", "prefix-one", "suffix-cut", "null-run-head", "null-run-inside", "all-null", "lower-case", "title-case", "upper-case"}
 
 // ApplyFault returns a mutated deep copy of root (root itself is untouched). ok=false when the fault does not apply at p.
 func ApplyFault(root *Value, p Path, fault string, k int) (*Value, bool) {
@@ -694,6 +694,27 @@ func ApplyFault(root *Value, p Path, fault string, k int) (*Value, bool) {
 			rs = rs[:len(rs)-1]
 		}
 		return replace(c, p, S(string(rs))), true
+	case "lower-case", "title-case", "upper-case":
+		// the same string in another letter case (an enumeration word, a media type, a prefix written differently)
+		if val.Kind != String {
+			return nil, false
+		}
+		var ns string
+		switch fault {
+		case "lower-case":
+			ns = strings.ToLower(val.Str)
+		case "upper-case":
+			ns = strings.ToUpper(val.Str)
+		default:
+			lo := strings.ToLower(val.Str)
+			if lo != "" {
+				ns = strings.ToUpper(lo[:1]) + lo[1:]
+			}
+		}
+		if ns == val.Str {
+			return nil, false
+		}
+		return replace(c, p, S(ns)), true
 	case "negative":
 		if val.Kind == Number {
 			return replace(c, p, N("-1.5e3")), true
